@@ -2,7 +2,7 @@ import TLVerif.Rpcextra.ExtrasLemmas
 import TLVerif.Rpcextra.Format
 /-! Lemmas about `preparePacket` / `ParseInvokeReq` / `prepareResponseBody` / `parseResponseExtra`. -/
 namespace TLVerif.Rpcextra
-open TLVerif.Prim TLVerif.Facts.Prim
+open TLVerif.Prim TLVerif.Facts.Prim TLVerif.Facts.Rpcextra
 
 /-- the user body starts with a tag that is not one of the four request wrappers (it is the tag of
 the function being called) -/
@@ -372,6 +372,7 @@ theorem TraceContext.source_short (t : TraceContext) (hb : hasBit t.fieldsMask 3
 
 /-- the maps of the value are maps (always true of a Go `map`) -/
 def ReqExtra.mapsOK (e : ReqExtra) : Prop := hasBit e.flags 15 = true → dictSorted e.waitShardsBinlogPos = true
+instance (e : ReqExtra) : Decidable e.mapsOK := by unfold ReqExtra.mapsOK; infer_instance
 
 theorem ReqExtra.wf_of_short (e : ReqExtra) (hm : e.mapsOK) (hl : e.write.length < 4294967296) : e.wf := by
   unfold ReqExtra.write at hl
@@ -396,6 +397,7 @@ theorem ReqExtra.wf_of_short (e : ReqExtra) (hm : e.mapsOK) (hl : e.write.length
 
 def ResExtra.mapsOK (e : ResExtra) : Prop :=
   (hasBit e.flags 6 = true → dictSorted e.stats = true) ∧ (hasBit e.flags 14 = true → dictSorted e.shardsBinlogPos = true)
+instance (e : ResExtra) : Decidable e.mapsOK := by unfold ResExtra.mapsOK; infer_instance
 
 theorem ResExtra.wf_of_short (e : ResExtra) (hm : e.mapsOK) (hl : e.write.length < 4294967296) : e.wf := by
   unfold ResExtra.write at hl
@@ -409,5 +411,71 @@ theorem ResExtra.wf_of_short (e : ResExtra) (hm : e.mapsOK) (hl : e.write.length
     exact strOK_of_short _ (by omega)
   · rw [hb, optW_true] at hl
     exact dictOK_of_short u64W _ (hm.2 hb) (by omega)
+
+
+theorem limits : maxPacketLen - packetOverhead < 4294967296 := by decide
+
+theorem ReqExtra.wf_of_flags_zero (e : ReqExtra) (h : e.flags = 0) : e.wf := by
+  refine ⟨?_, ?_, ?_, ?_, ?_, ?_⟩ <;> (rw [h, hasBit_zero]; intro hb; cases hb)
+
+theorem ResExtra.wf_of_flags_zero (e : ResExtra) (h : e.flags = 0) : e.wf := by
+  refine ⟨?_, ?_⟩ <;> (rw [h, hasBit_zero]; intro hb; cases hb)
+
+/-- a successful `preparePacket` implies everything the extra's writer needs -/
+theorem prepare_wf (req : Request) (p : Bytes × Nat) (hm : req.extra.mapsOK)
+    (hp : preparePacket req = some p) : req.extra.wf := by
+  by_cases hf : req.extra.flags = 0
+  · exact ReqExtra.wf_of_flags_zero _ hf
+  · apply ReqExtra.wf_of_short _ hm
+    have hlim := limits
+    unfold preparePacket at hp
+    simp only at hp
+    split at hp
+    · next hv =>
+      simp only [validBodyLen, Bool.not_eq_true', decide_eq_false_iff_not, List.length_append] at hv
+      have hfb : (req.extra.flags != 0) = true := by simpa using hf
+      unfold requestHeader at hv
+      simp only [hfb, Bool.and_true, if_true, List.length_append] at hv
+      split at hv
+      · simp only [List.length_append] at hv; omega
+      · simp only [List.length_append] at hv; omega
+    · cases hp
+
+/-- a successful `prepareResponseBody` implies everything the extra's writer needs -/
+theorem response_wf (h : RespIn) (err : HandlerErr) (resp : Bytes) (es : Nat) (fl : UInt32)
+    (hm : (maskedExtra h).mapsOK) (hp : prepareResponseBody h err = .ok resp es fl) : (maskedExtra h).wf := by
+  by_cases hf : (maskedExtra h).flags = 0
+  · exact ResExtra.wf_of_flags_zero _ hf
+  · apply ResExtra.wf_of_short _ hm
+    have hlim := limits
+    unfold prepareResponseBody at hp
+    simp only at hp
+    cases hn : h.noResult
+    · simp only [hn, Bool.false_eq_true, if_false] at hp
+      generalize (if (err.isNone && h.tl2) = true then u32W tTL2Marker else []) = marker at hp
+      split at hp
+      · next hv =>
+        simp only [validBodyLen, Bool.not_eq_true', decide_eq_false_iff_not, List.length_append] at hv
+        have hfb : ((maskedExtra h).flags != 0) = true := by simpa using hf
+        simp only [extrasOnWire, hfb, if_true, List.length_append] at hv
+        omega
+      · cases hp
+    · simp [hn] at hp
+
+/-- … and that the error description is a writable string -/
+theorem response_desc_ok (h : RespIn) (err : HandlerErr) (code : UInt32) (desc : Bytes) (resp : Bytes) (es : Nat) (fl : UInt32)
+    (he : errorOnWire h.reqTag err = some (code, desc)) (hp : prepareResponseBody h err = .ok resp es fl) : strOK desc := by
+  have hlim := limits
+  unfold prepareResponseBody at hp
+  simp only at hp
+  cases hn : h.noResult
+  · simp only [hn, Bool.false_eq_true, if_false] at hp
+    generalize (if (err.isNone && h.tl2) = true then u32W tTL2Marker else []) = marker at hp
+    split at hp
+    · next hv =>
+      simp only [validBodyLen, Bool.not_eq_true', decide_eq_false_iff_not, List.length_append, responseBody, he] at hv
+      exact strOK_of_short _ (by omega)
+    · cases hp
+  · simp [hn] at hp
 
 end TLVerif.Rpcextra
